@@ -59,7 +59,7 @@ def key_injectivity(prog, rep):
     sums, _ = summarize(fi=None, body=il.body, env=env)
     counts = set()
     for s in sums:
-        n = sum(1 for ln in s.lines if any(ln == e.lineno for e in exts))
+        n = sum(1 for st_ in s.stmts if any(st_ is e for e in exts))
         counts.add(n)
     ok = counts == {1}
     rep.check(ok, "KEY", fi.short, "key extension", "positional: exactly one component per key on every path", f"the group key is extended on some paths only (per-path extension counts {sorted(counts)}) and the components are not tagged with their key: events {{a: 1}} and {{b: 1}} merged by [a, b] get the same group key, so different combinations of presence and value are conflated", fi.loc(exts[0]), expected="one component per key on every path, or (key, value) components", found=f"extension counts per path: {sorted(counts)}; component `{norm(exts[0])}`")
